@@ -504,6 +504,10 @@ func (r *Runner) stepCopy(op Op) []Disc {
 	m := r.M
 	src := "/" + op.SB + "/" + url.QueryEscape(op.SKey)
 	hdr := append([][2]string{{"X-Amz-Copy-Source", src}}, op.Meta...)
+	if op.Via == "directive-copy" {
+		// the explicit spelling of the default: the destination gets the source's metadata
+		hdr = append(hdr, [2]string{"X-Amz-Metadata-Directive", "COPY"})
+	}
 	resp := r.do(r.req("PUT", op.B, op.Key, nil, hdr, nil))
 	db := m.ensure(op.B)
 	if db == nil {
